@@ -830,3 +830,15 @@ func init() {
 		return e.tt.Bin(OpAdd, e.tt.Bin(OpMul, dsec, e.tt.BV(64, 1_000_000_000)), dns)
 	})
 }
+
+func init() {
+	// reflection is outside the encoder: end the path cleanly
+	regPrefix("reflect.", func(fr *frame, args []Value) Value {
+		unsupported("reflect call %s", fr.fn.String())
+		return nil
+	})
+	regPrefix("(reflect.", func(fr *frame, args []Value) Value {
+		unsupported("reflect call %s", fr.fn.String())
+		return nil
+	})
+}
